@@ -5,6 +5,7 @@ import (
 	"fmt"
 	"math/rand"
 	"os"
+	"path/filepath"
 	"strconv"
 	"strings"
 	"time"
@@ -175,8 +176,9 @@ func selfChallenge() []byte {
 func streamC14(env *runEnv) {
 	r := rand.New(rand.NewSource(env.seed))
 	type job struct {
-		db  []authconfig.UserConfig
-		ops []nop
+		db   []authconfig.UserConfig
+		ops  []nop
+		spec []authconfig.UserConfig // the database the configuration file describes, when db was read from one
 	}
 	var jobs []job
 	dbs := [][]authconfig.UserConfig{
@@ -290,7 +292,7 @@ func streamC14(env *runEnv) {
 					}
 				}
 			}
-			jobs = append(jobs, job{dbs[1], ops})
+			jobs = append(jobs, job{db: dbs[1], ops: ops})
 		}
 		if len(cur) == maxLen {
 			return
@@ -303,7 +305,24 @@ func streamC14(env *runEnv) {
 	// (a2) literal passwords with shell metacharacters, and what an expansion would make of them
 	for _, up := range [][2]string{{"dave", "pa$$w0rd$HOME"}, {"dave", "paw0rd"}, {"dave", "pa$$w0rd" + os.Getenv("HOME")}, {"erin", "$HOME"}, {"erin", os.Getenv("HOME")}, {"erin", ""},
 		{"frank", "${USER}%PATH%"}, {"frank", os.Getenv("USER") + "%PATH%"}, {"frank", "%PATH%"}} {
-		jobs = append(jobs, job{dbs[3], []nop{{sess: sessA, kind: "neg"}, {sess: sessA, kind: "auth", user: up[0], pw: up[1], from: 1}}})
+		jobs = append(jobs, job{db: dbs[3], ops: []nop{{sess: sessA, kind: "neg"}, {sess: sessA, kind: "auth", user: up[0], pw: up[1], from: 1}}})
+	}
+	// (a4) the user database as the service reads it from its configuration file: unquoted scalars that
+	// look like numbers are user names and passwords like any other
+	{
+		want := []authconfig.UserConfig{{Username: "alice", Password: "wonderland"}, {Username: "bob", Password: "20241231"},
+			{Username: "4711", Password: "s3cret"}, {Username: "quoted", Password: "00123"}}
+		f := filepath.Join(env.workdir, "c14-users.yaml")
+		os.MkdirAll(env.workdir, 0o700)
+		os.WriteFile(f, []byte("Users:\n - Username: alice\n   Password: wonderland\n - Username: bob\n   Password: 20241231\n"+
+			" - Username: 4711\n   Password: s3cret\n - Username: \"quoted\"\n   Password: \"00123\"\n"), 0o600)
+		loaded := authconfig.Load(f).Users
+		for _, u := range want {
+			for _, pw := range []string{u.Password, "wrong", ""} {
+				jobs = append(jobs, job{db: loaded, spec: want, ops: []nop{{sess: sessA, kind: "neg"}, {sess: sessA, kind: "auth", user: u.Username, pw: pw, from: 1}}})
+			}
+		}
+		jobs = append(jobs, job{db: loaded, spec: want, ops: []nop{{sess: sessA, kind: "neg"}, {sess: sessA, kind: "auth", user: "", pw: "s3cret", from: 1}}})
 	}
 	// (a3) many rejected proofs for a user, from several sessions, then the configured password in a fresh session
 	for _, fails := range []int{4, 5, 6, 12} {
@@ -314,7 +333,7 @@ func streamC14(env *runEnv) {
 		}
 		ops = append(ops, nop{sess: sessC, kind: "neg"}, nop{sess: sessC, kind: "auth", user: "alice", pw: "wonderland", from: len(ops) + 1})
 		ops = append(ops, nop{sess: sessA, kind: "neg"}, nop{sess: sessA, kind: "auth", user: "carol", pw: "pässwörd", from: len(ops) + 1})
-		jobs = append(jobs, job{dbs[1], ops})
+		jobs = append(jobs, job{db: dbs[1], ops: ops})
 	}
 	// (b) random histories
 	nh := 1500
@@ -327,12 +346,12 @@ func streamC14(env *runEnv) {
 		for k := 0; k < n; k++ {
 			ops = append(ops, mkop(ops))
 		}
-		jobs = append(jobs, job{dbs[r.Intn(len(dbs))], ops})
+		jobs = append(jobs, job{db: dbs[r.Intn(len(dbs))], ops: ops})
 	}
 	// (c) expiry of the cached context (real waits; thorough tier only)
 	if env.thorough() {
-		jobs = append(jobs, job{dbs[0], []nop{{sess: sessA, kind: "neg"}, {sess: sessA, kind: "auth", user: "alice", pw: "wonderland", from: 1, wait: 62}}})
-		jobs = append(jobs, job{dbs[0], []nop{{sess: sessA, kind: "neg"}, {sess: sessA, kind: "auth", user: "alice", pw: "wonderland", from: 1, wait: 3}}})
+		jobs = append(jobs, job{db: dbs[0], ops: []nop{{sess: sessA, kind: "neg"}, {sess: sessA, kind: "auth", user: "alice", pw: "wonderland", from: 1, wait: 62}}})
+		jobs = append(jobs, job{db: dbs[0], ops: []nop{{sess: sessA, kind: "neg"}, {sess: sessA, kind: "auth", user: "alice", pw: "wonderland", from: 1, wait: 3}}})
 	}
 	parallel(jobs, func(e *l1env, j job) {
 		var specs []string
@@ -344,7 +363,11 @@ func streamC14(env *runEnv) {
 		if strings.Contains(obs, "ok:") {
 			env.count("c14.with-success")
 		}
-		env.emit("ntlm", dbSpec(j.db), strings.Join(specs, ","), obs)
+		spec := j.db
+		if j.spec != nil {
+			spec = j.spec
+		}
+		env.emit("ntlm", dbSpec(spec), strings.Join(specs, ","), obs)
 	})
 }
 
